@@ -41,7 +41,7 @@ struct IoFault : Profile {
     const char *name() const override { return "iofault"; }
     const char *property() const override { return "C16"; }
     const char *level() const override { return "fault_enumeration"; }
-    int         runs(bool thorough) const override { return thorough ? 1600 : 88; }
+    int         runs(bool thorough) const override { return thorough ? 1200 : 88; }
     int         minimise_budget() const override { return 200; }
     std::string rule() const override
     {
